@@ -482,7 +482,7 @@ Lemma dispatch_everyn_shape e b n last fired ch :
     end.
 Proof.
   destruct e; cbn [dispatch base_ev fst]; try (eexists; reflexivity).
-  destruct (everyn_fires nt last n); eexists; reflexivity.
+  destruct (everyn_fires nt last n); [exists (fst (dispatch (Step nt) ch)) | exists ch]; reflexivity.
 Qed.
 
 (* fires iff num_timesteps - last_time_trigger >= n, for every history of events and every child *)
